@@ -14,11 +14,14 @@
                                                timing_iff_not_reset, variables_to_13_decimals, integers_exact)
     "1..12 primary variables (1..3 lines)"     incon_roundtrip_partial (any count ≥ 1) and num_variables_needed
     "block names survive the naming quirk in both directions"   name_written_then_read, name_read_then_written
-    "writing it again reproduces the file byte for byte"        not proved here (see the note at the end)
+    "writing it again reproduces the file byte for byte"        rewrite_real_stable_partial (per value; the whole-file
+                                               statement is not proved, see the note at the end), witnesses
+                                               excluded_reduced_precision_carry, excluded_header_double_rounding
 -/
 import PyTough.Model.Incon
 import PyTough.Gen.Specs
 import PyTough.Proofs.InconRoundtrip
+import PyTough.Proofs.InconRewrite
 
 namespace Props.C13
 open Py Model Model.Incon Model.Names Proofs Proofs.Incon
@@ -226,16 +229,65 @@ theorem excluded_toughreact_bare :
     (write theSpecs exBare false >>= read .fortran theSpecs TOUGH2 none true).map (·.simulator) = .ok TOUGH2 := by
   decide +kernel
 
+/-! ### writing it again -/
+
+/-- **The second write of a value reproduces the first** (`_partial`: only for values whose first
+    write kept the field's own precision; the excluded class is witnessed below).
+    For a real `r` in a `%e` field: if `'%w.pe' % r` fits the field, then the decimal that
+    `parse_string` returns for it (`reparse`, handed back to the writer as an exact decimal
+    — assumption A-float) is written with exactly the same text.  With `fmtE_reprint_stable` below
+    this is the per-value content of "byte for byte": every record of the second generation is made
+    of the same field texts. -/
+theorem rewrite_real_stable_partial (rf : ReadFn) {f : FieldSpec} (ht : f.typ = 'e') (r : Rat) {s : Str}
+    (hfull : fmtVal f (.real r) = .ok s) (hfit : s.length ≤ f.width) :
+    writeField f (.real r) = .ok s ∧ writeField f (pvalToVal (reparse rf f (.real r))) = .ok s :=
+  rewrite_real_stable rf ht r hfull hfit
+
+/-- formatting a decimal that already has exactly `p+1` significant digits returns it unchanged
+    (`decNum m t / decDen t` is the decimal `m·10^t` as a fraction), and the result does not depend
+    on how the fraction is written -/
+theorem fmtE_reprint_stable (p m : Nat) (t : Int) (hlo : 10 ^ p ≤ m) (hhi : m < 10 ^ (p + 1)) :
+    fmtEParts p (decNum m t) (decDen t) = (m, t + p) ∧
+    ∀ c, 0 < c → fmtEParts p (decNum m t * c) (decDen t * c) = (m, t + p) := by
+  have h := fmtEParts_decimal p m t hlo hhi
+  exact ⟨h, fun c hc => by rw [fmtEParts_scale p _ _ c (decDen_pos t) hc, h]⟩
+
+/-- the double `-9.99999999999995e-100` (exact value) -/
+def exCarry : Rat := mkRat (-4925250774549285) 4925250774549309901534880012517951725634967408808180833493536675530715221437151326426783281860614455100828498788352
+
+/-- Excluded class 1 (known finding `rewrite-differs-same-values`): a negative value just below a
+    power of ten with a three-digit exponent does not fit `20.13e`; the width guard writes it with 12
+    decimals, the rounding carries to `-1.000000000000e-99`, and the re-read value `-1e-99` *does*
+    fit with 13 decimals: same number, different bytes. -/
+theorem excluded_reduced_precision_carry :
+    writeField theLayout.v (.real exCarry) = .ok " -1.000000000000e-99".toList ∧
+    writeField theLayout.v (pvalToVal (reparse .fortran theLayout.v (.real exCarry))) = .ok "-1.0000000000000e-99".toList := by
+  constructor <;> decide +kernel
+
+/-- the double `1.2345644999` (exact value) -/
+def exSumtim : Rat := mkRat 5559984221714483 4503599627370496
+
+/-- Excluded class 2 (known finding `rewrite-differs-header`): the long header prints `sumtim` in
+    `12.6e` from the in-memory value, the next generation from the value re-read from the `15.9e`
+    timing record: rounding to 9 and then to 6 decimals is not rounding to 6 decimals.  (Here the
+    re-read value is taken as the double Python holds, `pvalToDouble`: the 9-decimal text
+    `1.234564500` is a tie for 6 decimals, and the nearest double lies above it.) -/
+theorem excluded_header_double_rounding :
+    writeField (fieldAt theSpecs.headerLong 3) (.real exSumtim) = .ok "1.234564e+00".toList ∧
+    writeField (fieldAt theSpecs.headerLong 3)
+      (pvalToDouble (reparse .fortran (timingLayout theSpecs.timing).sumtim (.real exSumtim))) = .ok "1.234565e+00".toList := by
+  constructor <;> decide +kernel
+
 /-
-  Not proved: "writing it again reproduces the file byte for byte".  In the model (exact decimals)
-  and on the real code it is *false* at two kinds of points that the oracle replays:
-    * a value that needed the width guard's reduced precision and carries to a shorter exponent
-      (`-9.99999999999995e-100` is written ` -1.000000000000e-99`, re-read and re-written
-      `-1.0000000000000e-99`);
-    * the long header prints `sumtim` at 6 decimals from the in-memory value, the second generation
-      from the 9-decimal value of the timing record (`1.2345644999`: `1.234564e+00` then `1.234565e+00`).
-  Outside these the second generation is compared byte for byte by the correspondence facet
-  `incon_rewrite` and by the oracle on every run.
+  Not proved: the whole-file form of "writing it again reproduces the file byte for byte"
+  (`write (read (write x)) = write x`).  Its per-value content is `rewrite_real_stable_partial`
+  (reals), `integers_exact` and `name_written_then_read` (integers and names come back exactly, so
+  they are re-written identically); the structure of the file (header, one record and
+  ceil(n/4) value lines per block, terminator/timing) is determined by `canon x reset`, which
+  `incon_roundtrip_partial` shows to have the same blocks, counts, flavour and timing presence as
+  `x`.  The composition of these facts into one statement about `write` has not been carried out.
+  On the real code the second generation is compared byte for byte with the first by the oracle and
+  with the model by the correspondence facet `incon_rewrite` on every run.
 -/
 
 end Props.C13
